@@ -2333,4 +2333,40 @@ theorem printDQ_clean (p : Nat) (q : Rat) : CleanTok (printDQ p q) := by
 /-- the driver's instance writes clean tokens: the byte-level theorems apply to it unconditionally -/
 theorem ratIO_printClean (tol : Rat) : PrintClean (ratIO tol) := fun p d => printDQ_clean p d
 
+theorem corrupted_rejected_dexp (io : DblIO D) (pr : Prec) (S A : Nat) (e : DExp D) (hv : dexpValidB S A e = true)
+    (hr : AllMat (RT io pr.dense) e.rewards) (hm : AllMat (RT io pr.dense) e.m2)
+    (dest : DExp D) (p : Stream) (t : Tok) (q q' : Stream) (hpq : wrDExp io pr e = p ++ t :: q) (j : Tok) (hj : Junk io j) :
+    (load (rdDExp io S A) dest (p ++ j :: q')).sig ≠ none ∧ (load (rdDExp io S A) dest (p ++ j :: q')).dest = dest :=
+  corrupted_load_rejected io _ _ (tri_rdDExp io S A) (ext_rdDExp io S A) e (roundtrip_dexp io pr S A e hv hr hm) dest p t q q' hpq j hj
+
+theorem corrupted_rejected_smodel (io : DblIO D) (pr : Prec) (S A : Nat) (m : SModel D) (hv : smodelValidB io S A m = true)
+    (hdimS : S * S < two64) (hdimA : S * A < two64)
+    (hd : RT io pr.scalar m.discount) (ht : ∀ t ∈ m.T, ∀ x ∈ t, RT io pr.sparse x.v) (hr : ∀ x ∈ m.R, RT io pr.sparse x.v)
+    (dest : SModel D) (p : Stream) (t : Tok) (q q' : Stream) (hpq : wrSModel io pr m = p ++ t :: q) (j : Tok) (hj : Junk io j) :
+    (load (rdSModel io S A) dest (p ++ j :: q')).sig ≠ none ∧ (load (rdSModel io S A) dest (p ++ j :: q')).dest = dest :=
+  corrupted_load_rejected io _ _ (tri_rdSModel io S A) (ext_rdSModel io S A) m
+    (roundtrip_smodel io pr S A m hv hdimS hdimA hd ht hr) dest p t q q' hpq j hj
+
+theorem corrupted_rejected_mpol (io : DblIO D) (pr : Prec) (S A : Nat) (m : Mat D) (hv : mpolValidB io S A m = true)
+    (h : AllMat (RT io pr.dense) m) (dest : Mat D) (p : Stream) (t : Tok) (q q' : Stream) (hpq : wrMPol io pr m = p ++ t :: q)
+    (j : Tok) (hj : Junk io j) :
+    (load (rdMPol io S A) dest (p ++ j :: q')).sig ≠ none ∧ (load (rdMPol io S A) dest (p ++ j :: q')).dest = dest :=
+  corrupted_load_rejected io _ _ (tri_rdMPol io S A) (ext_rdMPol io S A) m (roundtrip_mpol io pr S A m hv h) dest p t q q' hpq j hj
+
+theorem corrupted_rejected_pd {M} (io : DblIO D) (pr : Prec) (rdM : Rd M) (wrM : M → Stream) (vM : M → Bool)
+    (htri : Tri io rdM) (hext : Ext rdM) (S A O : Nat) (x : M × List (Mat D)) (hv : pdValidB io vM S A O x = true)
+    (hM : RoundTrips rdM wrM x.1) (ho : AllMat3 (RT io pr.dense) x.2) (dest : M × List (Mat D))
+    (p : Stream) (t : Tok) (q q' : Stream) (hpq : wrPD io pr wrM x = p ++ t :: q) (j : Tok) (hj : Junk io j) :
+    (load (rdPD io rdM S A O) dest (p ++ j :: q')).sig ≠ none ∧ (load (rdPD io rdM S A O) dest (p ++ j :: q')).dest = dest :=
+  corrupted_load_rejected io _ _ (tri_rdPD io rdM htri hext S A O) (ext_rdPD io rdM hext S A O) x
+    (roundtrip_pd io pr rdM wrM vM S A O x hv hM ho) dest p t q q' hpq j hj
+
+theorem corrupted_rejected_ps {M} (io : DblIO D) (pr : Prec) (rdM : Rd M) (wrM : M → Stream) (vM : M → Bool)
+    (htri : Tri io rdM) (hext : Ext rdM) (S A O : Nat) (x : M × List (SpMat D)) (hv : psValidB io vM S A O x = true)
+    (hdim : S * O < two64) (hM : RoundTrips rdM wrM x.1) (ho : ∀ t ∈ x.2, ∀ e ∈ t, RT io pr.sparse e.v) (dest : M × List (SpMat D))
+    (p : Stream) (t : Tok) (q q' : Stream) (hpq : wrPS io pr wrM x = p ++ t :: q) (j : Tok) (hj : Junk io j) :
+    (load (rdPS io rdM S A O) dest (p ++ j :: q')).sig ≠ none ∧ (load (rdPS io rdM S A O) dest (p ++ j :: q')).dest = dest :=
+  corrupted_load_rejected io _ _ (tri_rdPS io rdM htri hext S A O) (ext_rdPS io rdM hext S A O) x
+    (roundtrip_ps io pr rdM wrM vM S A O x hv hdim hM ho) dest p t q q' hpq j hj
+
 end AITB.Codec
